@@ -140,12 +140,14 @@ theorem planWith_pieces (bs len m : Nat) (hm : 0 < m) :
     exact ⟨bs, _, planWith_big h hb, ceil_mul_ge len bs (by omega), Or.inr ⟨rfl, by omega⟩⟩
 
 /-- in the rounded plan of a power-of-two slice every batch offset is a multiple of every power of
-two that does not exceed the minimum batch size -/
-theorem offsets_divisible (L threads m j : Nat) (hz : 2 ^ j ≤ m) (cs : List (Nat × Nat))
-    (h : batchIterMut3 (2 ^ L) threads m = some cs) : ∀ b ∈ cs, 2 ^ j ∣ b.1 := by
-  unfold batchIterMut3 batchSize at h
+two that does not exceed the batch size (only needed when the slice IS split) -/
+theorem offsets_divisible_gen (L threads m j : Nat)
+    (hz : ¬ batchSize (2 ^ L) threads < m → 2 ^ j ≤ batchSize (2 ^ L) threads)
+    (cs : List (Nat × Nat)) (h : batchIterMut3 (2 ^ L) threads m = some cs) : ∀ b ∈ cs, 2 ^ j ∣ b.1 := by
+  unfold batchIterMut3 at h
+  unfold batchSize at h hz
   obtain ⟨k, hk⟩ := Nat.isPowerOfTwo_nextPowerOfTwo threads
-  rw [hk] at h
+  rw [hk] at h hz
   by_cases hs : 2 ^ L / 2 ^ k < m
   · rw [planWith_small hs] at h
     cases h
@@ -155,11 +157,17 @@ theorem offsets_divisible (L threads m j : Nat) (hz : 2 ^ j ≤ m) (cs : List (N
     subst this
     simp
   · have hpos := Nat.two_pow_pos j
+    have hle := hz hs
     rw [planWith_big hs (by omega)] at h
     cases h
     intro b hb
     obtain ⟨i, _, rfl⟩ := mem_pieces hb
-    exact Nat.dvd_trans (pow_dvd_batch L k j (by omega)) (Nat.dvd_mul_left _ _)
+    exact Nat.dvd_trans (pow_dvd_batch L k j hle) (Nat.dvd_mul_left _ _)
+
+/-- … in particular of every power of two that does not exceed the minimum batch size -/
+theorem offsets_divisible (L threads m j : Nat) (hz : 2 ^ j ≤ m) (cs : List (Nat × Nat))
+    (h : batchIterMut3 (2 ^ L) threads m = some cs) : ∀ b ∈ cs, 2 ^ j ∣ b.1 :=
+  offsets_divisible_gen L threads m j (fun hs => by omega) cs h
 
 theorem add_mod_of_dvd {z off : Nat} (h : z ∣ off) (i : Nat) : (off + i) % z = i % z := by
   obtain ⟨q, rfl⟩ := h
